@@ -34,7 +34,8 @@ class Built:
     """A program realised with real tensors."""
 
     def __init__(self, prog: list[dict], dtype=torch.float64, rng: random.Random | None = None,
-                 shapes: list | None = None, scalars: tuple | list = (), real: list | None = None):
+                 shapes: list | None = None, scalars: tuple | list = (), real: list | None = None,
+                 other_dtype_leaves: tuple | list = ()):
         """``scalars``: node ids (1-based) that must be 0-d tensors (losses of mtl_backward)."""
         rng = rng or random.Random(0)
         scalars = set(scalars)
@@ -51,7 +52,9 @@ class Built:
                 if idx >= len(self.real):
                     self.real.append(0)
                 shape = tuple(shapes[idx]) if shapes else pick_shape(nd["size"], rng)
-                x = torch.tensor([float(v) for v in nd["val"]], dtype=dtype).reshape(shape)
+                ldt = dtype if (idx + 1) not in set(other_dtype_leaves) else (
+                    torch.float32 if dtype == torch.float64 else torch.float64)
+                x = torch.tensor([float(v) for v in nd["val"]], dtype=ldt).reshape(shape)
                 x.requires_grad_(bool(nd["rg"]))
                 self.t.append(x)
                 self.shapes.append(shape)
@@ -69,6 +72,10 @@ class Built:
         """One abstract op on flattened operands, realised in one of several equivalent torch forms."""
         op = nd["op"]
         af = a.reshape(-1)
+        if af.dtype != self.dtype:
+            af = af.to(self.dtype)              # mixed-precision leaves are cast on use (a differentiable op)
+        if b is not None and b.dtype != self.dtype:
+            b = b.to(self.dtype)
         if op == "lin":
             mat = nd["mat"]
             n = af.numel()
@@ -121,7 +128,7 @@ class Built:
 
     def set_grad(self, i: int, flat: list) -> None:
         x = self.node(i)
-        x.grad = torch.tensor([float(v) for v in flat], dtype=self.dtype).reshape(x.shape)
+        x.grad = torch.tensor([float(v) for v in flat], dtype=x.dtype).reshape(x.shape)
 
     def grad_flat(self, i: int):
         g = self.node(i).grad
